@@ -403,9 +403,13 @@ package main
 //@ ghost var ghostChallengeTaken bool
 //@ ghost var ghostTakenU2F *u2f.Challenge
 //@ ghost var ghostTakenWebauthn *webauthn.SessionData
+//@ ghost var ghostTakenExpiresAt int64
 //@ func (*RuntimeState).u2fSignResponse
 //@   atcall sync.Mutex).Lock sets ghostChallengeTaken bool (m *sync.Mutex) :: true if hasKey(state.localAuthData, ghostAuthUser)
 //@   atcall sync.Mutex).Lock sets ghostTakenU2F *u2f.Challenge (m *sync.Mutex) :: state.localAuthData[ghostAuthUser].U2fAuthChallenge if hasKey(state.localAuthData, ghostAuthUser)
+//@   atcall sync.Mutex).Lock sets ghostTakenExpiresAt int64 (m *sync.Mutex) :: timeNanos(state.localAuthData[ghostAuthUser].ExpiresAt) if hasKey(state.localAuthData, ghostAuthUser)
+// ... and an expired challenge never works, whether or not the janitor has removed it yet
+//@   atcall u2f.Registration).Authenticate requires (reg *u2f.Registration, resp u2f.SignResponse, c u2f.Challenge, counter uint32) :: ghostTakenExpiresAt >= nowNanos()   #C05.u2f-challenge-unexpired @C05
 //@   loop 1 (authData *authInfo, localAuth localUserData) invariant ghostAuthed && authData.Username == ghostAuthUser && authData.AuthType == ghostAuthLevel && ghostProfileUser == ghostAuthUser && ghostVerifiedBits == 0 && !hasKey(state.localAuthData, ghostAuthUser) && ghostChallengeTaken && localAuth.U2fAuthChallenge == ghostTakenU2F  #C05.u2f-loop @C05
 //@   loop 2 (authData *authInfo, localAuth localUserData) invariant ghostAuthed && authData.Username == ghostAuthUser && authData.AuthType == ghostAuthLevel && ghostProfileUser == ghostAuthUser && ghostVerifiedBits == 0 && !hasKey(state.localAuthData, ghostAuthUser) && ghostChallengeTaken && localAuth.U2fAuthChallenge == ghostTakenU2F  #C05.u2f-loop2 @C05
 //@   atcall u2f.Registration).Authenticate sets ghostVerifiedBits int (reg *u2f.Registration, resp u2f.SignResponse, c u2f.Challenge, counter uint32, newCounter uint32, err error) :: ghostVerifiedBits | AuthTypeU2F if err == nil && ghostProfileUser == ghostAuthUser && ghostChallengeTaken && same(c, *ghostTakenU2F)
@@ -413,6 +417,9 @@ package main
 //@ func (*RuntimeState).webauthnAuthFinish
 //@   atcall sync.Mutex).Lock sets ghostChallengeTaken bool (m *sync.Mutex) :: true if hasKey(state.localAuthData, ghostAuthUser)
 //@   atcall sync.Mutex).Lock sets ghostTakenWebauthn *webauthn.SessionData (m *sync.Mutex) :: state.localAuthData[ghostAuthUser].WebAuthnChallenge if hasKey(state.localAuthData, ghostAuthUser)
+//@   atcall sync.Mutex).Lock sets ghostTakenExpiresAt int64 (m *sync.Mutex) :: timeNanos(state.localAuthData[ghostAuthUser].ExpiresAt) if hasKey(state.localAuthData, ghostAuthUser)
+//@   atcall webauthn.WebAuthn).ValidateLogin requires (wa *webauthn.WebAuthn, user webauthn.User, session webauthn.SessionData, parsed *protocol.ParsedCredentialAssertionData) :: ghostTakenExpiresAt >= nowNanos()   #C05.webauthn-challenge-unexpired @C05
+//@   atcall protocol.ParsedCredentialAssertionData).Verify requires (parsed *protocol.ParsedCredentialAssertionData, storedChallenge string, rpID string, rpOrigin string, appID string, verifyUser bool, credentialBytes []byte) :: ghostTakenExpiresAt >= nowNanos()   #C05.webauthn-u2f-challenge-unexpired @C05
 //@   atcall webauthn.WebAuthn).ValidateLogin sets ghostVerifiedBits int (wa *webauthn.WebAuthn, user webauthn.User, session webauthn.SessionData, parsed *protocol.ParsedCredentialAssertionData, cred *webauthn.Credential, err error) :: ghostVerifiedBits | AuthTypeU2F | AuthTypeFIDO2 if err == nil && ghostProfileUser == ghostAuthUser && isType[*userProfile](user) && asType[*userProfile](user) == ghostProfile && ghostChallengeTaken && same(session, *ghostTakenWebauthn)
 //@   atcall protocol.ParsedCredentialAssertionData).Verify sets ghostVerifiedBits int (parsed *protocol.ParsedCredentialAssertionData, storedChallenge string, rpID string, rpOrigin string, appID string, verifyUser bool, credentialBytes []byte, err error) :: ghostVerifiedBits | AuthTypeU2F if err == nil && ghostProfileUser == ghostAuthUser && ghostChallengeTaken && storedChallenge == ghostTakenWebauthn.Challenge
 //@   atcall (*RuntimeState).updateAuthCookieAuthlevel requires (s2 *RuntimeState, w2 http.ResponseWriter, r2 *http.Request, username string, authlevel int) :: !hasKey(state.localAuthData, ghostAuthUser)  #C05.webauthn-challenge-consumed @C05
